@@ -33,7 +33,7 @@ def run(rep, prog, tier):
     interps = SR.analyse(prog)
     n = SR.emit(rep, 'R03.space', interps, ['mna', 'bias', 'ssm', 'model', 'wrapper', 'transient', 'port'])
     rep.count('space_obligations', n)
-    if n < 200: raise AnalysisError(f'only {n} index-space obligations found')
+    if n < 200: rep.error(f'only {n} index-space obligations found')
     # antisymmetry (shared with C01's sign table)
     tmp_signs = []
     for e in ('mna', 'ssm'):
